@@ -162,6 +162,9 @@ func style(t *rapid.T) *gen.Style {
 	st.BlockInRules = rapid.SampledFrom([]int{0, 0, 0, 1, 2, 3}).Draw(t, "blockInRules") // ### c ### between the tokens of inline rule objects and behind them
 	st.KeyComments = rapid.SampledFrom([]int{0, 0, 0, 1, 2, 3}).Draw(t, "keyComments")
 	st.ItemNoteExtras = rapid.SampledFrom([]int{0, 0, 1, 2}).Draw(t, "itemNoteExtras") // blanks after enum item notes, notes on lines between the items
+	st.EmptyAfterAnn = rapid.SampledFrom([]int{0, 0, 1, 2}).Draw(t, "emptyAfterAnn")       // a second annotation without text behind a multi-line one: the note of the first one stays
+	st.BlockOverLines = rapid.SampledFrom([]int{0, 0, 1, 2}).Draw(t, "blockOverLines")     // ### comments that run from the line of one sibling to the line of the next
+	st.BlockBeforeRules = rapid.SampledFrom([]int{0, 0, 1, 2}).Draw(t, "blockBeforeRules") // ### c ### between the slashes and the rule object
 	if st.JoinLines {
 		st.Comments, st.EmptyAnn, st.StrayNotes = 0, 0, 0 // joining lines only works where nothing else is written at the ends of lines
 	}
